@@ -78,6 +78,31 @@ def cells():
             p = decl.format(c="", n="&p", i="").rstrip(";")
             yield ("ref-arg-template:%s" % sid, c, model(gdecl=d, params=p, assign="p%s = 1" % ("[0]" if "[" in decl else ""),
                                                         system="P = T(t); system P;"))
+    # a constant that reaches a written reference parameter through the own parameters of partial instances (1 and 2 levels):
+    # each level's declared constness has to be compared with the parameter it is bound to
+    P1 = X.template("T", params="int &x", locations=[X.location("id0", "L0"), X.location("id1", "L1")], init="id0",
+                    transitions=[X.transition("id0", "id1", assign="x = 1")])
+    PA = X.template("T", params="int &a[2]", locations=[X.location("id0", "L0"), X.location("id1", "L1")], init="id0",
+                    transitions=[X.transition("id0", "id1", assign="a[0] += 2")])
+    G = "const int c = 1; int m; const int ca[2] = {1, 2}; int ma[2];"
+    FORWARD = [
+        ("value-const-param", P1, "Q(const int[0,3] k) = T(k); system Q;", "const "),
+        ("const-ref-param", P1, "Q(const int &k) = T(k); R = Q(c); system R;", "const "),
+        ("const-ref-param-bound-to-variable", P1, "Q(const int &k) = T(k); R = Q(m); system R;", "const "),
+        ("ref-param", P1, "Q(int &k) = T(k); R = Q(m); system R;", ""),
+        ("ref-param-bound-to-constant", P1, "Q(int &k) = T(k); R = Q(c); system R;", "const "),
+        ("two-levels:const-then-mutable", P1, "Q1(const int &k) = T(k); Q2(int &j) = Q1(j); R = Q2(m); system R;", "const "),
+        ("two-levels:mutable-then-const", P1, "Q1(int &k) = T(k); Q2(const int &j) = Q1(j); R = Q2(m); system R;", "const "),
+        ("two-levels:mutable", P1, "Q1(int &k) = T(k); Q2(int &j) = Q1(j); R = Q2(m); system R;", ""),
+        ("two-levels:mutable-bound-to-constant", P1, "Q1(int &k) = T(k); Q2(int &j) = Q1(j); R = Q2(c); system R;", "const "),
+        ("array:const-ref-param", PA, "Q(const int &k[2]) = T(k); R = Q(ca); system R;", "const "),
+        ("array:const-ref-param-bound-to-variable", PA, "Q(const int &k[2]) = T(k); R = Q(ma); system R;", "const "),
+        ("array:ref-param", PA, "Q(int &k[2]) = T(k); R = Q(ma); system R;", ""),
+        ("array:ref-param-bound-to-constant", PA, "Q(int &k[2]) = T(k); R = Q(ca); system R;", "const "),
+        ("left-free:const-ref-param", P1, "Q(const int &k) = T(k); system Q;", "const "),
+    ]
+    for fid, t, system, c in FORWARD:
+        yield ("forwarded-parameter:" + fid, c, X.nta(G, [t], system))
     # binders: select and iteration have mutable twins (a plain variable of the same type)
     for wid, wtext in WRITES:
         stmt = wtext.format(X="t")
